@@ -126,6 +126,23 @@ def events(rng, homs, thorough):
         yield "jac_same", f, N * N * (D // N), (lambda T=T: b.tr2jac(T, np.bool_(True))), "base.tr2jac(T,numpy-bool)"
 
 
+def planar_events(rng, thorough):
+    """adjoint2 on exact planar motions [q = (a,0,0,c), t = (x,y,0), d] (times N d: integers)"""
+    from spatialmath.base.transforms2d import adjoint2
+    qs = [(1, 0, 0, 0), (1, 0, 0, 1), (0, 0, 0, 1), (1, 0, 0, -1), (2, 0, 0, 1), (3, 0, 0, -1), (3, 0, 0, 2), (1, 0, 0, 2), (4, 0, 0, -3)]
+    ts = [(0, 0, 0), (1, 0, 0), (0, -2, 0), (3, 1, 0), (-7, 5, 0)] + \
+         [(rng.randint(-40, 40), rng.randint(-40, 40), 0) for _ in range(6 if thorough else 2)]
+    for q in qs:
+        a, c = q[0], q[3]
+        N = a * a + c * c
+        for t in ts:
+            for d in (1, 2, 5):
+                T = np.array([[(a * a - c * c) / N, -2.0 * a * c / N, t[0] / d], [2.0 * a * c / N, (a * a - c * c) / N, t[1] / d], [0, 0, 1]])
+                f = {"q": list(q), "t": list(t), "d": d}
+                yield "Ad2", f, N * d, (lambda T=T: adjoint2(T)), "base.adjoint2"
+                yield "Ad2", f, N * d, (lambda T=T: adjoint2(T.copy(order="F"))), "base.adjoint2(F-order)"
+
+
 def series_expm(A):
     """matrix exponential by its defining power series with scaling and squaring (trusted, 12 lines)"""
     A = np.asarray(A, dtype=float)
@@ -237,6 +254,33 @@ def laws(j, rng, n):
                 j.fail("%s|%s|%s|law-violated" % (PID, name, tag_), {"kind": "law", "law": name, "pair": tag_, "distance": d}, cid)
             else:
                 j.ok(cid)
+    # planar adjoint on real valuations: homomorphism, inverse, Ad2(T) s = vexa(T [s] T^-1), embedding into the spatial adjoint
+    for k in range(n):
+        cid = ("law", "adjoint2")
+        try:
+            from spatialmath.base.transforms2d import adjoint2
+            sc = (1e-3, 1.0, 1e3)[k % 3]
+            T1 = b.transl2(rng.uniform(-1, 1) * sc, rng.uniform(-1, 1) * sc) @ b.trot2(rng.uniform(-math.pi, math.pi))
+            T2 = b.transl2(rng.uniform(-1, 1) * sc, rng.uniform(-1, 1) * sc) @ b.trot2(rng.uniform(-math.pi, math.pi))
+            s3 = np.array([rng.uniform(-1, 1), rng.uniform(-1, 1), rng.uniform(-1, 1)])
+            A1, A2, A12 = np.asarray(adjoint2(T1), dtype=float), np.asarray(adjoint2(T2), dtype=float), np.asarray(adjoint2(T1 @ T2), dtype=float)
+            T3 = np.eye(4)
+            T3[:2, :2], T3[:2, 3] = T1[:2, :2], T1[:2, 2]
+            A6 = np.asarray(b.adjoint(T3), dtype=float)[np.ix_([0, 1, 5], [0, 1, 5])]
+            mag = max(1.0, sc) ** 2
+            ds = {"shape": 0.0 if A1.shape == (3, 3) else 1.0,
+                  "hom": float(np.max(np.abs(A12 - A1 @ A2))) / mag if A1.shape == (3, 3) else 1.0,
+                  "inv": float(np.max(np.abs(np.asarray(adjoint2(np.linalg.inv(T1)), dtype=float) @ A1 - np.eye(3)))) / mag if A1.shape == (3, 3) else 1.0,
+                  "vee": float(np.max(np.abs(A1 @ s3 - np.ravel(b.vexa(T1 @ b.skewa(s3) @ np.linalg.inv(T1)))))) / mag if A1.shape == (3, 3) else 1.0,
+                  "embed": float(np.max(np.abs(A1 - A6))) / mag if A1.shape == (3, 3) else 1.0}
+        except Exception as ex:  # noqa: BLE001
+            j.fail("%s|adjoint2|raised-%s" % (PID, type(ex).__name__), {"kind": "law", "law": "adjoint2"}, cid)
+            continue
+        worst = max(ds, key=lambda kk: ds[kk])
+        if not (ds[worst] <= 1e-9):
+            j.fail("%s|adjoint2|%s|law-violated" % (PID, worst), {"kind": "law", "law": "adjoint2-" + worst, "distance": ds[worst], "scale": sc}, cid)
+        else:
+            j.ok(cid)
     # planar maps and the SO(3) adjoint
     for w in (0.3, -2.0, 1e-6):
         cid = ("law", "2D-skew-vex")
@@ -260,7 +304,8 @@ def run(tier):
     rr = run_tlc("MC_Group", "Group_ratpairs", timeout=300)
     homs = [e["post"] for e in rl.json][:: (2 if thorough else 12)] + [e["post"] for e in rr.json][:: (3 if thorough else 12)]
     evs, meta = [], []
-    for fn, args, mult, thunk, site in events(rng, homs, thorough):
+    import itertools
+    for fn, args, mult, thunk, site in itertools.chain(events(rng, homs, thorough), planar_events(rng, thorough)):
         cid = (site, fn)
         detail = {"kind": "event", "fn": fn, "site": site, "args": args}
         try:
@@ -299,7 +344,7 @@ def run(tier):
     laws(j, rng, 200 if thorough else 50)
     cov = {"states": rj.distinct + rl.distinct + rr.distinct, "transitions": rj.generated + rl.generated + rr.generated,
            "traces_validated_against_impl": n_ev, "events_judged_by_tlc": n_ev, "events_rejected": len(rej),
-           "theorems_checked_by_tlc": 9, "lattice_exact": n_ev, "valuation": j.evaluations - n_ev, "checker_cmd": rt.cmd,
+           "theorems_checked_by_tlc": 13, "lattice_exact": n_ev, "valuation": j.evaluations - n_ev, "checker_cmd": rt.cmd,
            "rule": "case = (implementation site, spec operator) for events; (law, magnitude band) for valuations"}
     return {"judge": j, "coverage": cov, "level": "model_checking", "assumptions": [
         "exact oracle on integer vectors and lattice / rational motions; laws on sampled real motions elsewhere",
